@@ -402,3 +402,31 @@ def has_kind(spec, kinds):
 
 def ribbon_of(W, frac):
     return max(0, min(W, round(frac * W)))
+
+
+def large_specs():
+    """A few LARGE documents (long concats, many stack entries behind a group, deep nesting of groups, wide pages): sizes the
+    exhaustive and the small random domains never reach.  [(spec, [widths], [fractions])].  Added after seeded faults that were
+    guarded by a size threshold (a concat of more than 32 children pushed in slices, a lookahead cut after 8 stack entries /
+    400 steps) went unnoticed by the bounded stand-ins."""
+    out = []
+    items = []
+    for i in range(20):
+        items += [['line'], ['t', 'item%02d' % i]]
+    body = ['nest', 4, ['cat', items]]
+    for wrap in (lambda d: d, lambda d: ['ab', d], lambda d: ['group', d]):
+        out.append((['cat', [['t', 'key: '], wrap(body)]], [20, 30, 60], [1.0, 0.5]))
+    for n in (8, 12, 20):
+        tail = [['t', 'x'] for _ in range(n)] + [['t', 'yyyyyyyyyy']]
+        d = ['cat', [['group', ['cat', [['t', 'aaaaaaaa'], ['line'], ['t', 'bbbbbbbb']]]]] + tail]
+        out.append((d, [30, 28 + n, 40 + n], [1.0]))
+        out.append((['nest', 4, d], [30, 28 + n], [1.0]))
+    deep = ['t', 'x']
+    for _ in range(45):
+        deep = ['group', ['cat', [['t', '('], ['nest', 1, ['cat', [['softline'], deep]]], ['softline'], ['t', ')']]]]
+    out.append((deep, [100, 200], [1.0]))
+    wide = []
+    for i in range(150):
+        wide += [['t', 'ab'], ['line']]
+    out.append((['group', ['cat', wide[:-1]]], [150 * 3 - 1, 150 * 3 + 9], [1.0]))
+    return out
